@@ -123,3 +123,12 @@ CLAIMED["C19"] = (
  "is decided by the shared engine under C17-R2. Does not decide equality of payload sequences.",
  COMMON_NOTE,
  "DESIGN.md section 5 C19")
+
+CLAIMED["C02"] = (
+ "value-identity (progress threading) over SSA, path enumeration with branch literals for the success condition, errno/EOF mapping tables by guard literals",
+ "Static necessary-condition analysis for file/conn and AsyncAdapter. Decides that each transfer is issued on b[progress:], that progress+n (the same SSA value) is what every completion and re-schedule receives, "
+ "that the reactor records and replays progress/buffer/all-flag, that operations start at 0 with the all-flag their API name promises, that a success completion (nil constant, or the transfer error on a path "
+ "where it is nil) is only reachable after a successful transfer that is complete or not an *All operation, the EAGAIN/EOF/count mapping of file.Read/Write, and that ErrWouldBlock re-arms instead of completing. "
+ "Does not decide that the bytes are the peer's bytes in order (kernel, runtime values) nor arbitrary io.ReadWriter implementations under the adapter.",
+ COMMON_NOTE,
+ "DESIGN.md section 5 C02")
